@@ -16,6 +16,9 @@ for kk, kh, tier in [(0, 0, "quick"), (5, 2, "quick"), (11, 5, "quick"), (1, 1, 
        defines=["H4V_MAXNDDS=4", "H4V_MAXNB=2", f"H4V_KK={kk}", f"H4V_KH={kh}"], **SYNC, **DD)
 ob("HTPsync_order", ["C17"], entry="h_HTPsync_order", enforce=None, bound="<= 3 DD blocks of ndds == 4; offsets and DD contents symbolic",
    defines=["H4V_MAXNDDS=4", "H4V_MAXNB=3"], **SYNC, **DD)
+for n, tier in [(0, "quick"), (1, "quick"), (5, "thorough"), (4, "thorough")]:
+    ob(f"HTPinit_n{n}", ["C02", "C16"], entry="h_HTPinit", enforce="HTPinit", mode="bounded", tier=tier,
+       bound=f"requested ndds == {n} (one constant per run; 0 -> default 16, 1 -> minimum 4)", unwind=20, defines=[f"H4V_NDDS_IN={n}"], **DD)
 
 prop("C02",
      residual="'an independent reader recovers the same content' as a whole-file relation; no-overlap of all live elements over a history; chunk/compressed element internal consistency",
